@@ -121,6 +121,15 @@ pub fn run(_args: &[String]) -> i32 {
         ("2024/01/01 a\n    A    1 P @ 3 JPY\n    B\n\n2024/01/01 b\n    A    1 Q @ 5 JPY\n    B\n\n2024/01/01 b\n    A    1 R @ 7 JPY\n    B\n\n2024/01/02 c\n    A    1 Z @ 2 P\n    B\n\n2024/01/02 d\n    A    1 Z @ 2 Q\n    B\n\n2024/01/02 e\n    A    1 Z @ 2 R\n    B\n\n", vec![]),
         // implied exchange between two commodities, then a declared precision
         ("commodity Y\n    format 1,000.00 Y\n\n2024/01/01 fx\n    Assets:A    10 X\n    Assets:A    -25.005 Y\n\n2024/01/02 fx\n    Assets:A    -4 X\n    Assets:B    10 Y\n\n2024/01/03 z\n    Assets:B    1 Z\n    Equity   -1 Z\n\n", vec!["(1 X + 1 Y)"]),
+        // expressions mentioning several commodities that cancel (all of them, or all but one), in every position an expression can
+        // stand: posting amount, balance assertion, assignment, cost, lot price, eval
+        ("2024/03/05 back\n    Assets:Wallet    (100 USD - 100 USD + 92 EUR - 92 EUR)\n    Expenses:Fees\n\n", vec!["(1 X - 1 X + 2 Y - 2 Y)", "(0 X + 0 Y + 0 Z + 0 W)", "(5 X - 5 X + 2 Y - 2 Y + 1 Z)"]),
+        ("2024/03/05 back\n    Assets:Wallet    (100 USD - 100 USD + 92 EUR - 92 EUR + 3 CHF - 3 CHF + 1 JPY)\n    Expenses:Fees\n\n", vec![]),
+        ("2024/03/01 fund\n    Assets:Wallet    500 USD\n    Equity\n\n2024/03/05 chk\n    Assets:Wallet    0 USD = (100 USD - 100 USD + 92 EUR - 92 EUR)\n    Equity\n\n", vec![]),
+        ("2024/03/01 fund\n    Assets:Wallet    500 USD\n    Assets:Wallet    7 EUR\n    Equity\n\n2024/03/05 set\n    Assets:Wallet    = (1 USD - 1 USD + 2 EUR - 2 EUR + 3 CHF - 3 CHF)\n    Equity\n\n", vec![]),
+        ("2024/03/05 cost\n    Assets:A    1 X @ (1 Y - 1 Y + 2 Z - 2 Z + 4 W - 4 W)\n    Equity\n\n", vec![]),
+        ("2024/03/05 lot\n    Assets:A    1 X {(1 Y - 1 Y + 2 Z - 2 Z + 4 W - 4 W)}\n    Equity\n\n", vec![]),
+        ("2024/03/05 cost\n    Assets:A    1 X @ (1 Y - 1 Y + 2 Z - 2 Z + 4 W)\n    Equity\n\n", vec![]),
     ];
     for (text, evals) in &ledgers {
         evaluated += 1;
